@@ -1,9 +1,85 @@
 import GnpyDriver.JsonUtil
+import GnpyDriver.C18
 import GnpyModel
-/- driver handlers for property C20 (ops are named "c20.<name>") -/
+/- driver handlers for property C20 (ops are named "c20.<name>"); JSON trees use the wire form of C18 -/
 open Lean
 namespace Gnpy.Drv.C20
+open Gnpy Gnpy.Xls Gnpy.Drv.C18
 
-def handlers : List (String × Handler) := []
+def getKw (j : Json) : R Dict := do
+  match ← getJ j with
+  | .obj l => pure l
+  | _ => throw "row dict expected"
+
+def errName : XErr → String
+  | .duplicateCity => "NetworkTopologyError:duplicate-city"
+  | .linkUnknownNode => "NetworkTopologyError:link-unknown-node"
+  | .duplicateLink => "NetworkTopologyError:duplicate-link"
+  | .unreferencedNode => "NetworkTopologyError:unreferenced-node"
+  | .eqptUnknownNode => "NetworkTopologyError:eqpt-unknown-node"
+  | .eqptUnknownLink => "NetworkTopologyError:eqpt-unknown-link"
+  | .duplicateEqpt => "NetworkTopologyError:duplicate-eqpt"
+  | .duplicateIla => "NetworkTopologyError:duplicate-ila"
+  | .impairmentMismatch => "NetworkTopologyError:impairment-mismatch"
+  | .py k => k
+
+def getTable (j : Json) : R Table := do
+  return { nodes := (← fList getKw j "nodes").map mkNode,
+           links := (← fList getKw j "links").map mkLink,
+           eqpts := (← fList getKw j "eqpts").map mkEqpt,
+           roadms := (← fList getKw j "roadms").map mkRoadmRow }
+
+def convertH (j : Json) : R Json := do
+  match convert (← getTable j) with
+  | .ok o => return jObj [("value", putJ o.toJson)]
+  | .error e => return jObj [("error", jStr (errName e))]
+
+def jSide (s : LinkSide) : Json :=
+  putJ (.obj [("distance", s.distance), ("fiber", s.fiber), ("lineic", s.lineic), ("con_in", s.conIn),
+              ("con_out", s.conOut), ("pmd", s.pmd), ("cable", .str s.cable)])
+
+def linkH (j : Json) : R Json := do
+  let l := mkLink (← getKw (← fld j "kw"))
+  return jObj [("a", jStr l.a), ("z", jStr l.z), ("east", jSide l.east), ("west", jSide l.west)]
+
+def sErrName : SErr → String
+  | .service w => "ServiceError:" ++ w
+  | .py k => k
+
+def getModes (j : Json) : R (Option (List String)) := fOpt (getList getStr) j "modes"
+
+def requestH (j : Json) : R Json := do
+  let r := mkRequest (← getKw (← fld j "kw"))
+  match mkReqElem r (← getModes j) (← fBool j "bidir") with
+  | .ok e => return jObj [("request", putJ (pathRequest e)), ("sync", jOpt putJ (pathSync e))]
+  | .error e => return jObj [("error", jStr (sErrName e))]
+
+/-- whole `read_service_sheet`: rows with their available modes, then the route correction -/
+def servicesH (j : Json) : R Json := do
+  let rows ← fList (fun r => do return (← getKw (← fld r "kw"), ← getModes r)) j "rows"
+  let bidir ← fBool j "bidir"
+  let trx ← fList getStr j "trx"
+  let rc ← fList getStr j "roadm_cities"
+  let ru ← fList getStr j "roadm_edfa_uids"
+  let tf ← fList getStr j "trx_fiber_uids"
+  let amb ← fList getStr j "ambiguous"
+  let mut elems : List ReqElem := []
+  for (kw, modes) in rows do
+    match mkReqElem (mkRequest kw) modes bidir with
+    | .ok e => elems := elems ++ [e]
+    | .error e => return jObj [("error", jStr (sErrName e))]
+  let mut fixed : List ReqElem := []
+  for e in elems do
+    match correctRoute trx rc ru tf amb e with
+    | .ok (some e') => fixed := fixed ++ [e']
+    | .ok none => return jObj [("skip", jStr "ambiguous-direction")]
+    | .error er => return jObj [("error", jStr (sErrName er))]
+  let syncs := fixed.filterMap pathSync
+  let doc : Dict := [("path-request", .arr (fixed.map pathRequest))] ++
+    (if syncs.isEmpty then [] else [("synchronization", .arr syncs)])
+  return jObj [("value", putJ (.obj doc))]
+
+def handlers : List (String × Handler) :=
+  [("c20.convert", convertH), ("c20.link", linkH), ("c20.request", requestH), ("c20.services", servicesH)]
 
 end Gnpy.Drv.C20
